@@ -70,6 +70,7 @@ PROPS["C05"] = {
     "units": [
         rapid("cache-model", "packetcache", "TestVerif_C05_CacheModel", 2000, 10000),
         rapid("concurrent", "packetcache", "TestVerif_C05_Concurrent", 12, 60, race=True, shards=8),
+        rapid("writer-path", "rtpconn", "TestVerif_C05_WriterPath", 100, 600),
     ],
     "technique": "model-based stateful property testing (rapid) + concurrent readers with self-validating content under the race detector",
     "assumptions": ["callers pass a result buffer of BufSize bytes (every caller in galene does)", "packet sizes 1..1504, capacities 1..65535"],
@@ -80,6 +81,7 @@ PROPS["C06"] = {
         plain("regress", "packetcache", "TestVerif_C06_Regress_.*"),
         rapid("bitmap-stats-model", "packetcache", "TestVerif_C06_BitmapStatsModel", 4000, 30000),
         rapid("tobitmap", "packetcache", "TestVerif_C06_ToBitmap", 4000, 30000),
+        rapid("readloop-nacks", "rtpconn", "TestVerif_C06_ReadLoopNacks", 150, 1000),
     ],
     "technique": "model-based property testing (rapid): loss bitmap / statistics / NACK packing against a model with extended seqnos; real readLoop with captured RTCP",
     "assumptions": ["the packet-rate estimate is 0 in a fast test, so only the 2-packet NACK threshold is exercised",
